@@ -363,12 +363,11 @@ func projectCollection(rt *ResultTypeExpr, view string, seen map[string]*Attribu
 }
 
 func projectRecursive(at *AttributeExpr, vat *NamedAttributeExpr, view string, seen map[string]*AttributeExpr) (*AttributeExpr, error) {
-	if att, ok := seen[hashAttrAndView(at, view)]; ok {
-		return att, nil
-	}
-	at = DupAtt(at)
-
 	if rt, ok := at.Type.(*ResultTypeExpr); ok {
+		// The view used to render a nested result type is the one set on the
+		// view attribute, then the one set on the attribute itself, then the
+		// default view: the enclosing view name does not matter. Use that view
+		// both to look up and to record the projection.
 		vatt := vat.Attribute
 		view, ok := vatt.Meta.Last(ViewMetaKey)
 		if !ok {
@@ -378,6 +377,10 @@ func projectRecursive(at *AttributeExpr, vat *NamedAttributeExpr, view string, s
 				view = DefaultView
 			}
 		}
+		if att, ok := seen[hashAttrAndView(at, view)]; ok {
+			return att, nil
+		}
+		at = DupAtt(at)
 		seen[hashAttrAndView(at, view)] = at
 		pr, err := project(rt, view, seen)
 		if err != nil {
@@ -386,6 +389,11 @@ func projectRecursive(at *AttributeExpr, vat *NamedAttributeExpr, view string, s
 		at.Type = pr
 		return at, nil
 	}
+
+	if att, ok := seen[hashAttrAndView(at, view)]; ok {
+		return att, nil
+	}
+	at = DupAtt(at)
 
 	if _, ok := at.Type.(*UserTypeExpr); ok {
 		seen[hashAttrAndView(at, view)] = at
